@@ -3,6 +3,7 @@ import PeptVerif.Model.Annotation
 import PeptVerif.Model.Spans
 import PeptVerif.Model.Reorder
 import PeptVerif.Model.C07Strings
+import PeptVerif.Model.C07Gen
 /-! driver for C07: slice, the annotation return type of the digest dispatcher, digest end to end from sites -/
 open Proto Pept Pept.Reorder
 
@@ -43,6 +44,12 @@ def step (line : String) : String :=
       let sps := Spans.digestSpans a.seq.length sites mc lo hi semi c
       showPieces sps (digestPieces a sps)
     | _, _, _, _, _, _, _ => "bad-op"
+  | ["gen", which, a, lo, hi] =>
+    match GenKind.parse? which, Wire.parseAnnotation? a, parseOptInt? lo, parseOptInt? hi with
+    | some k, some a, some lo, some hi =>
+      let ps := genPieceSpans k a lo hi
+      showPieces (ps.map (·.2)) (ps.map (·.1))
+    | _, _, _, _ => "bad-op"
   | _ => "bad-op"
 
 def main : IO Unit := runDriver step
